@@ -67,6 +67,27 @@ def judge(ctx, n, edges, directed_answers=False):
     except Exception as e:
         ctx.violate_exc("raises", f"raises:{type(e).__name__}", e, spec=spec)
         return
+    if n >= 2 and not getattr(judge, "_in_second", False) and ctx.evaluations % 2 == 0:
+        # second call: the SAME event objects and the SAME callable object, but the relation it implements has
+        # changed in the meantime (a threshold attribute was edited): the result must follow the new relation
+        edges2 = [e for e in edges[1:]] if edges else [(0, n - 1)]
+        eset.clear()
+        eset.update(frozenset(e) for e in edges2)
+        log2_start = len(log)
+        try:
+            seqs2 = G.group_sound_events(evs, cmp)
+            ctx.mon("second_call_same_objects")
+            got2 = sorted(sorted(pos.get(id(e), -1) for e in s2.sound_events) for s2 in seqs2)
+            if got2 != _components(n, edges2):
+                ctx.violate("components", "components:stale_result_on_second_call", observed=got2, expected=_components(n, edges2),
+                            spec={"n": n, "edges": [list(e) for e in edges], "second_call_edges": [list(e) for e in edges2]})
+            elif len(log) == log2_start and n >= 2:
+                ctx.violate("components", "components:comparison_function_not_consulted_on_second_call", observed="0 calls", spec=spec)
+        except Exception as e:
+            ctx.violate_exc("raises", f"raises_on_second_call:{type(e).__name__}", e, spec=spec)
+        eset.clear()
+        eset.update(frozenset(e) for e in edges)
+        del log[log2_start:]
     # ---- offline checker over the call log
     ctx.mon("call_log", len(log) or 1)
     for ia, ib in log:
